@@ -572,6 +572,27 @@ def _run(ctx, kind, fam, ctl):
             ctx.trace[1:]), sig(what, **kw))
         return ok
 
+    def one_thread(fn, *a, **kw):
+        """the same call with max_threads = 1 (thread count, chunking and worker order are then out of the picture):
+        the property demands BITWISE equality with it; everything else only to rounding accuracy"""
+        cur = pyiga.get_max_threads()
+        if cur <= 1:
+            return None
+        pyiga.set_max_threads(1)
+        try:
+            return fn(*a, **kw)
+        finally:
+            pyiga.set_max_threads(cur)
+
+    def cmp_threads(got, got1, what_detail, **kw):
+        if got1 is None:
+            return True
+        ctx.count('thread-invariance.compared')
+        return cmp_exact(todense(got) if (sp.issparse(got) or hasattr(got, 'asmatrix')) else np.asarray(got),
+                         todense(got1) if (sp.issparse(got1) or hasattr(got1, 'asmatrix')) else np.asarray(got1),
+                         'thread-count-changes-result', what_detail + ': result with %d threads is not bitwise equal to the result '
+                         'with 1 thread' % pyiga.get_max_threads(), **kw)
+
     def cmp_close(got, want, what, detail, **kw):
         got, want = np.asarray(got, float), np.asarray(want, float)
         sc = max(1e-300, np.abs(want).max() if want.size else 1.0)
@@ -661,11 +682,14 @@ def _run(ctx, kind, fam, ctl):
             A = ctx.call('assemble_entries', assemble.assemble_entries, asm, symmetric=symmetric, format=fmt, layout=layout)
             if A is RAISED():
                 return
+            if fam != 'taskfail':
+                A1 = one_thread(assemble.assemble_entries, asm, symmetric=symmetric, format=fmt, layout=layout)
+                cmp_threads(A, A1, 'assemble_entries(symmetric=%s, %s, %s)' % (symmetric, fmt, layout))
             if case.arity == 1:
                 want = R
                 if kind == 'vfun2d' and layout == 'blocked':
                     want = np.moveaxis(R, -1, 0)        # documented: component axis first in the blocked layout
-                cmp_exact(np.asarray(A), want, 'vector-differs', 'assembled vector (layout %s) differs from the reference' % layout,
+                cmp_close(np.asarray(A), want, 'vector-differs', 'assembled vector (layout %s) differs from the reference' % layout,
                           layout=layout)
                 continue
             D = todense(A)
@@ -677,13 +701,9 @@ def _run(ctx, kind, fam, ctl):
             if symmetric:
                 cmp_close(D, want, 'symmetric-differs', 'symmetric=True %s/%s differs from the general reference' % (fmt, layout),
                           fmt=fmt, layout=layout)
-                # the lower triangle is computed, not mirrored: exact
-                low = np.tril(np.ones_like(D, dtype=bool))
-                if not case.vector:
-                    cmp_exact(D[low], want[low], 'symmetric-lower-differs', 'lower triangle of symmetric assembly', fmt=fmt)
-                cmp_exact(D, D.T, 'symmetric-not-symmetric', 'symmetric=True result is not exactly symmetric', fmt=fmt)
+                cmp_close(D, D.T, 'symmetric-not-symmetric', 'symmetric=True result is not symmetric', fmt=fmt)
             else:
-                cmp_exact(D, want, 'matrix-differs', 'format %s layout %s differs bitwise from the entry-by-entry reference'
+                cmp_close(D, want, 'matrix-differs', 'format %s layout %s differs from the entry-by-entry reference'
                           % (fmt, layout), fmt=fmt, layout=layout)
             continue
         if op == 'highlevel':
@@ -706,14 +726,14 @@ def _run(ctx, kind, fam, ctl):
                 want = R
                 if kind == 'vfun2d' and layout == 'blocked':
                     want = np.moveaxis(R, -1, 0)
-                cmp_exact(np.asarray(A), want, 'highlevel-vector-differs', 'assemble(form, kvs) (layout %s) differs from the reference' % layout)
+                cmp_close(np.asarray(A), want, 'highlevel-vector-differs', 'assemble(form, kvs) (layout %s) differs from the reference' % layout)
                 continue
             D = todense(A)
             want = R
             if case.vector:
                 packed, blocked = blocked_dense(R)
                 want = packed if layout == 'packed' else blocked
-            (cmp_close if symmetric else cmp_exact)(D, want, 'highlevel-differs', 'assemble(form, kvs, symmetric=%s, format=%s, layout=%s) '
+            cmp_close(D, want, 'highlevel-differs', 'assemble(form, kvs, symmetric=%s, format=%s, layout=%s) '
                                                     'differs from the entry-by-entry reference' % (symmetric, fmt, layout), fmt=fmt, layout=layout)
             continue
         if op == 'rows':
@@ -736,7 +756,8 @@ def _run(ctx, kind, fam, ctl):
                 return
             want = np.zeros_like(R)
             want[rows] = R[rows]
-            cmp_exact(todense(A), want, 'rows-differ', 'assembly of the selected rows %s differs from the reference rows' % (rows,))
+            cmp_threads(A, one_thread(_hdiscr._assemble_partial_rows, asm, np.array(rows, dtype=int)), 'rows %s' % (rows,))
+            cmp_close(todense(A), want, 'rows-differ', 'assembly of the selected rows %s differs from the reference rows' % (rows,))
             continue
         if op == 'entry':
             i, j = data.choice(m), data.choice(n)
@@ -746,7 +767,7 @@ def _run(ctx, kind, fam, ctl):
             if v is RAISED():
                 return
             ctx.log(['entry', i, j])
-            cmp_exact(v, R[i, j], 'entry-differs', 'entry(%d,%d)' % (i, j))
+            cmp_close(v, R[i, j], 'entry-differs', 'entry(%d,%d)' % (i, j))
             continue
         if op == 'subset':
             sk = o.weighted([('random', 5), ('dups', 2), ('single', 1), ('all', 2), ('row', 2), ('empty', 1)])
@@ -774,13 +795,18 @@ def _run(ctx, kind, fam, ctl):
                     return
                 want = R[IJ[:, 0].astype(int), IJ[:, 1].astype(int)] if len(IJ) else np.zeros((0,) + R.shape[2:])
                 V = np.asarray(V).reshape(want.shape) if np.asarray(V).size == want.size else np.asarray(V)
-                cmp_exact(V, want, 'subset-blocks-differ', 'multi_blocks on a %s subset of %d pairs' % (sk, len(IJ)), subset=sk)
+                if fam != 'taskfail':
+                    V1 = one_thread(asm.multi_blocks, arg)
+                    cmp_threads(V, None if V1 is None else np.asarray(V1).reshape(np.asarray(V).shape), 'multi_blocks(%s subset)' % sk, subset=sk)
+                cmp_close(V, want, 'subset-blocks-differ', 'multi_blocks on a %s subset of %d pairs' % (sk, len(IJ)), subset=sk)
             else:
                 V = ctx.call('multi_entries', asm.multi_entries, arg)
                 if V is RAISED():
                     return
                 want = R[IJ[:, 0].astype(int), IJ[:, 1].astype(int)] if len(IJ) else np.zeros(0)
-                cmp_exact(V, want, 'subset-entries-differ', 'multi_entries on a %s subset of %d pairs' % (sk, len(IJ)), subset=sk)
+                if fam != 'taskfail':
+                    cmp_threads(V, one_thread(asm.multi_entries, arg), 'multi_entries(%s subset)' % sk, subset=sk)
+                cmp_close(V, want, 'subset-entries-differ', 'multi_entries on a %s subset of %d pairs' % (sk, len(IJ)), subset=sk)
             continue
         if op == 'wrapper':
             st['f'] = (st['f'] + 1) % 3
@@ -823,7 +849,7 @@ def _run(ctx, kind, fam, ctl):
                 R = np.moveaxis(R, -1, 0)
             elif case.vector:
                 R = blocked_dense(R)[1]
-            (cmp_close if wsym else cmp_exact)(todense(A) if case.arity == 2 else np.asarray(A), R, 'wrapper-differs',
+            cmp_close(todense(A) if case.arity == 2 else np.asarray(A), R, 'wrapper-differs',
                       'Assembler(...).assemble(f=...) differs from constructing afresh')
             ctx.count('op.wrapper')
             continue
